@@ -392,6 +392,7 @@ func (e *vAofEnv) aofReadHistory(r *rand.Rand, h *vAofHistory, secondEvery int) 
 		names = append(names, f.name)
 	}
 	names = append(names, h.newName)
+	forced := 0
 	for ci, c := range cuts {
 		img := vAofFileImg{h.newName, full.rec[:c.rc], full.dat[:c.dc]}
 		files := append(append([]vAofFileImg{}, h.older...), img)
@@ -450,7 +451,15 @@ func (e *vAofEnv) aofReadHistory(r *rand.Rand, h *vAofHistory, secondEvery int) 
 		}
 
 		// ---- second restart: reopen the torn newest file in append mode (real AofFile.Open), write more, load again
-		if secondEvery > 0 && ci%secondEvery == 0 && status != "panic" {
+		// besides the sampled cuts: always where the value file is cut behind at least one complete value while the record that owns the
+		// torn / missing value is complete — start-up then TRUNCATES the value file, and an off-by-some truncation only shows after more
+		// values were appended (seed C08d); at most three such cuts per history
+		forceSecond := secondEvery > 0 && valueMissing && dpos > 0 && forced < 3
+		if forceSecond {
+			forced++
+			e.out.stat("second-restart-forced:value-file-truncated")
+		}
+		if secondEvery > 0 && (ci%secondEvery == 0 || forceSecond) && status != "panic" {
 			more := []vAofRec{vAofGenRec(r, h.now+100, 90, false), vAofGenRec(r, h.now+100, 91, true), vAofGenRec(r, h.now+100, 92, false)}
 			for i := range more { // keep them unexpired
 				more[i].buf[57], more[i].buf[58], more[i].buf[59], more[i].buf[60] = 0, 0, 0, 0
@@ -609,6 +618,9 @@ func vAofGenHistory(r *rand.Rand, e *vAofEnv, it int, long bool) *vAofHistory {
 		wd := !long && r.Intn(3) == 0
 		if it%3 == 0 {
 			wd = false
+		}
+		if !long && it%3 == 1 && i < 3 {
+			wd = true // several values in a row: a cut inside a later value leaves complete values before it in the value file
 		}
 		h.recs = append(h.recs, vAofGenRec(r, h.now, i, wd))
 	}
